@@ -31,6 +31,11 @@ C09_SameAsFresh == (C.live.conv /\ C.fresh.conv) =>
 \* the element result tables (generators, branches, loads): the same for the long-lived and the fresh net
 C09_ElementTablesSameAsFresh == (C.live.conv /\ C.fresh.conv) => SameTabs(C.live, C.fresh, Last.op = "rundcpp")
 C09_ConvergesLikeFresh == (Last.init # "results" \/ MustConverge(Pre, Last)) => (C.fresh.conv => C.live.conv)
+\* a plain AC power flow that fails on both nets leaves the same res_bus behind (blank: every row NaN) - not the numbers
+\* of an earlier state of the long-lived net.  (rundcpp and init="results" read the previous tables as their input and
+\* keep them when they fail; for those the deep-copy clauses are the reference.)  Without a reference bus it does fail.
+C09_FailedLikeFresh == (~C.live.conv /\ ~C.fresh.conv /\ Last.op = "runpp" /\ Last.init # "results") => C.live.fvm = C.fresh.fvm
+C09_FailsWithoutReference == MustFail(Pre.n) => ~C.live.conv
 \* NaN mask = the spec's unsupplied set (buses are numbered 0..3 in the sequences)
 C09_NaNMask == C.live.conv => \A b \in 0..3 : (C.live.vm[b + 1] = NaN) <=> (b \in Unsupplied(Pre.n))
 =============================================================================
